@@ -7,8 +7,10 @@ project of C04 plus SRP size-boundary bases; EditsTrace.tla computes Expected(ba
 """
 from __future__ import annotations
 
+import ast
 import json
 import os
+import re
 from collections import Counter
 from pathlib import Path
 
@@ -72,7 +74,42 @@ def apply_edits(content: str, lang: str, edits: list[dict]) -> tuple[str, list[d
         elif kind == "append":
             lines += TAIL[lang].rstrip("\n").split("\n")
             out.append({"kind": kind, "at": 0})
+        elif kind == "rename":
+            lines = rename_locals("\n".join(lines), lang).split("\n")
+            out.append({"kind": kind, "at": 0})
     return bom + eol.join(lines) + eol, out
+
+
+NAME_RULES = ("stringly-typed", "dry")      # rules documented to look at identifiers / at the text of statements
+KEEP_NAMES = re.compile(r"verbose|logger|debug|^self$|^cls$|^_$", re.I)
+
+
+def rename_locals(text: str, lang: str) -> str:
+    """Consistently rename function-local identifiers (parameters and variables bound inside functions)."""
+    from .. import docex
+    if lang == "py":
+        try:
+            tree = ast.parse(text)
+        except SyntaxError:
+            return text
+        local: set[str] = set()
+        top = {n.id for stmt in tree.body for n in ast.walk(stmt) if isinstance(n, ast.Name)
+               and not isinstance(stmt, (ast.FunctionDef, ast.AsyncFunctionDef, ast.ClassDef))}
+        for fn in [n for n in ast.walk(tree) if isinstance(n, (ast.FunctionDef, ast.AsyncFunctionDef))]:
+            for a in fn.args.args + fn.args.kwonlyargs + fn.args.posonlyargs:
+                local.add(a.arg)
+            for n in ast.walk(fn):
+                if isinstance(n, ast.Name) and isinstance(n.ctx, ast.Store):
+                    local.add(n.id)
+        kw = {k.arg for k in ast.walk(tree) if isinstance(k, ast.keyword) and k.arg}
+        local = {n for n in local if n not in top and n not in kw and not KEEP_NAMES.search(n) and not n.isupper()}
+        return docex.py_rename(text, local, "_rn")
+    pat = (r"^\s+(?:const|let|var)\s+([A-Za-z_]\w*)" if lang in ("ts", "js") else r"^\s+let\s+(?:mut\s+)?([A-Za-z_]\w*)")
+    names = {m for m in re.findall(pat, text, re.M) if not KEEP_NAMES.search(m) and not m.isupper()}
+    suffix = "Rn" if lang in ("ts", "js") else "_rn"
+    for n in sorted(names, key=len, reverse=True):
+        text = re.sub(rf"(?<![\w.$]){re.escape(n)}(?![\w$])", n + suffix, text)
+    return text
 
 
 def lint(root: Path, names: list[str], linter=None) -> list[dict]:
@@ -120,7 +157,12 @@ def job(j: dict) -> dict:
         os.chdir(root)
         import src.linter_config.ignore as ig
         ig._CACHED_PARSER = None
-        runs.append({"edits": concrete, "after": lint(root, names), "case": case})
+        after = lint(root, names)
+        if any(e["kind"] == "rename" for e in concrete):
+            runs.append({"edits": concrete, "after": [v for v in after if v["linter"] not in NAME_RULES], "case": case,
+                         "base": [v for v in base if v["linter"] not in NAME_RULES]})
+        else:
+            runs.append({"edits": concrete, "after": after, "case": case})
     # the same project edited in place and linted again by the same process (alternately by one held Linter),
     # once as is and once with an inline directive in the file: every step starts from the original text
     import random as _random
@@ -146,8 +188,10 @@ def job(j: dict) -> dict:
             new, concrete = apply_edits(content0, lang, case["edits"])
             with open(rootv / main, "w", encoding="utf-8", newline="") as f:
                 f.write(new)
-            runs.append({"edits": concrete, "after": lint(rootv, names, held if ci % 2 == 0 else None),
-                         "case": dict(case, inplace=variant), "base": base_v})
+            after_v = lint(rootv, names, held if ci % 2 == 0 else None)
+            drop = NAME_RULES if any(e["kind"] == "rename" for e in concrete) else ()
+            runs.append({"edits": concrete, "after": [v for v in after_v if v["linter"] not in drop],
+                         "case": dict(case, inplace=variant), "base": [v for v in base_v if v["linter"] not in drop]})
     return {"base": base, "runs": runs}
 
 
@@ -155,13 +199,14 @@ def run(chk) -> None:
     quick = chk.tier == "quick"
     drive.preload()
     chk.rule = ("edit sequences of length <= 2 (thorough: <= 3) over {blank, comment} x 4 positions, trailing whitespace x 2 "
-                "positions, reindent, CRLF, BOM, appended unrelated code (enumerated by TLC from Edits.tla) x 23 "
+                "positions, reindent, CRLF, BOM, appended unrelated code, renaming of local identifiers (enumerated by TLC from Edits.tla) x 23 "
                 "linter x language bases; all rules linted before/after; non-trivial = base has findings; "
                 "distinct by (base, edit sequence)")
     chk.assumptions = ["comment lines are directive-free and indented like the following line; the probe files "
                        "contain no multi-line strings, so every insertion point is meaning-preserving",
                        "file-level findings (file-header, file-placement) do not shift",
-                       "identifier renaming is not generated (not modelled)"]
+                       "renaming = every function-local identifier gets a suffix; findings of stringly-typed and dry "
+                       "(which look at names / statement text) are left out of the comparison for renaming edits"]
     r = tlc.run("Edits", "mc/Edits.cfg" if quick else "mc/Edits3.cfg", workers=4, timeout=1800)
     chk.add_tlc("Edits sequences + shift meta-properties", r)
     if r.violation:
